@@ -1,0 +1,857 @@
+//go:build verif
+
+// Contracts for the verification machinery in /verif (comment only).
+// Written by /verif/tools/gen_join_contracts.py: one template for the eight generated joins.
+package join
+
+/*@ theory joins
+;; theory wiring
+@*/
+
+/*@ iface types/daemonset.CacheController.Cache
+  ensures (not (= result vnil))
+@*/
+/*@ iface types/daemonset.CacheReader.List
+@*/
+/*@ iface types/daemonset.Publisher.CloneForFilter
+  ensures (=> (= result1 vnil) (not (= result0 vnil)))
+@*/
+/*@ iface types/daemonset.FilterController.Refilter
+  requires [filter-nonnil] (not (= $0 vnil))
+@*/
+/*@ iface types/daemonset.Controller.Done
+  ensures (not (= result vnil))
+@*/
+/*@ iface types/daemonset.Controller.Close
+@*/
+/*@ iface types/daemonset.HandlerBuilder.OnInitialize
+  ensures (= result $recv)
+@*/
+/*@ iface types/daemonset.HandlerBuilder.OnCreate
+  ensures (= result $recv)
+@*/
+/*@ iface types/daemonset.HandlerBuilder.OnUpdate
+  ensures (= result $recv)
+@*/
+/*@ iface types/daemonset.HandlerBuilder.OnDelete
+  ensures (= result $recv)
+@*/
+/*@ iface types/daemonset.HandlerBuilder.Create
+  ensures (not (= result vnil))
+@*/
+
+/*@ iface types/deployment.CacheController.Cache
+  ensures (not (= result vnil))
+@*/
+/*@ iface types/deployment.CacheReader.List
+@*/
+/*@ iface types/deployment.Publisher.CloneForFilter
+  ensures (=> (= result1 vnil) (not (= result0 vnil)))
+@*/
+/*@ iface types/deployment.FilterController.Refilter
+  requires [filter-nonnil] (not (= $0 vnil))
+@*/
+/*@ iface types/deployment.Controller.Done
+  ensures (not (= result vnil))
+@*/
+/*@ iface types/deployment.Controller.Close
+@*/
+/*@ iface types/deployment.HandlerBuilder.OnInitialize
+  ensures (= result $recv)
+@*/
+/*@ iface types/deployment.HandlerBuilder.OnCreate
+  ensures (= result $recv)
+@*/
+/*@ iface types/deployment.HandlerBuilder.OnUpdate
+  ensures (= result $recv)
+@*/
+/*@ iface types/deployment.HandlerBuilder.OnDelete
+  ensures (= result $recv)
+@*/
+/*@ iface types/deployment.HandlerBuilder.Create
+  ensures (not (= result vnil))
+@*/
+
+/*@ iface types/ingress.CacheController.Cache
+  ensures (not (= result vnil))
+@*/
+/*@ iface types/ingress.CacheReader.List
+@*/
+/*@ iface types/ingress.Publisher.CloneForFilter
+  ensures (=> (= result1 vnil) (not (= result0 vnil)))
+@*/
+/*@ iface types/ingress.FilterController.Refilter
+  requires [filter-nonnil] (not (= $0 vnil))
+@*/
+/*@ iface types/ingress.Controller.Done
+  ensures (not (= result vnil))
+@*/
+/*@ iface types/ingress.Controller.Close
+@*/
+/*@ iface types/ingress.HandlerBuilder.OnInitialize
+  ensures (= result $recv)
+@*/
+/*@ iface types/ingress.HandlerBuilder.OnCreate
+  ensures (= result $recv)
+@*/
+/*@ iface types/ingress.HandlerBuilder.OnUpdate
+  ensures (= result $recv)
+@*/
+/*@ iface types/ingress.HandlerBuilder.OnDelete
+  ensures (= result $recv)
+@*/
+/*@ iface types/ingress.HandlerBuilder.Create
+  ensures (not (= result vnil))
+@*/
+
+/*@ iface types/job.CacheController.Cache
+  ensures (not (= result vnil))
+@*/
+/*@ iface types/job.CacheReader.List
+@*/
+/*@ iface types/job.Publisher.CloneForFilter
+  ensures (=> (= result1 vnil) (not (= result0 vnil)))
+@*/
+/*@ iface types/job.FilterController.Refilter
+  requires [filter-nonnil] (not (= $0 vnil))
+@*/
+/*@ iface types/job.Controller.Done
+  ensures (not (= result vnil))
+@*/
+/*@ iface types/job.Controller.Close
+@*/
+/*@ iface types/job.HandlerBuilder.OnInitialize
+  ensures (= result $recv)
+@*/
+/*@ iface types/job.HandlerBuilder.OnCreate
+  ensures (= result $recv)
+@*/
+/*@ iface types/job.HandlerBuilder.OnUpdate
+  ensures (= result $recv)
+@*/
+/*@ iface types/job.HandlerBuilder.OnDelete
+  ensures (= result $recv)
+@*/
+/*@ iface types/job.HandlerBuilder.Create
+  ensures (not (= result vnil))
+@*/
+
+/*@ iface types/pod.CacheController.Cache
+  ensures (not (= result vnil))
+@*/
+/*@ iface types/pod.CacheReader.List
+@*/
+/*@ iface types/pod.Publisher.CloneForFilter
+  ensures (=> (= result1 vnil) (not (= result0 vnil)))
+@*/
+/*@ iface types/pod.FilterController.Refilter
+  requires [filter-nonnil] (not (= $0 vnil))
+@*/
+/*@ iface types/pod.Controller.Done
+  ensures (not (= result vnil))
+@*/
+/*@ iface types/pod.Controller.Close
+@*/
+/*@ iface types/pod.HandlerBuilder.OnInitialize
+  ensures (= result $recv)
+@*/
+/*@ iface types/pod.HandlerBuilder.OnCreate
+  ensures (= result $recv)
+@*/
+/*@ iface types/pod.HandlerBuilder.OnUpdate
+  ensures (= result $recv)
+@*/
+/*@ iface types/pod.HandlerBuilder.OnDelete
+  ensures (= result $recv)
+@*/
+/*@ iface types/pod.HandlerBuilder.Create
+  ensures (not (= result vnil))
+@*/
+
+/*@ iface types/replicaset.CacheController.Cache
+  ensures (not (= result vnil))
+@*/
+/*@ iface types/replicaset.CacheReader.List
+@*/
+/*@ iface types/replicaset.Publisher.CloneForFilter
+  ensures (=> (= result1 vnil) (not (= result0 vnil)))
+@*/
+/*@ iface types/replicaset.FilterController.Refilter
+  requires [filter-nonnil] (not (= $0 vnil))
+@*/
+/*@ iface types/replicaset.Controller.Done
+  ensures (not (= result vnil))
+@*/
+/*@ iface types/replicaset.Controller.Close
+@*/
+/*@ iface types/replicaset.HandlerBuilder.OnInitialize
+  ensures (= result $recv)
+@*/
+/*@ iface types/replicaset.HandlerBuilder.OnCreate
+  ensures (= result $recv)
+@*/
+/*@ iface types/replicaset.HandlerBuilder.OnUpdate
+  ensures (= result $recv)
+@*/
+/*@ iface types/replicaset.HandlerBuilder.OnDelete
+  ensures (= result $recv)
+@*/
+/*@ iface types/replicaset.HandlerBuilder.Create
+  ensures (not (= result vnil))
+@*/
+
+/*@ iface types/replicationcontroller.CacheController.Cache
+  ensures (not (= result vnil))
+@*/
+/*@ iface types/replicationcontroller.CacheReader.List
+@*/
+/*@ iface types/replicationcontroller.Publisher.CloneForFilter
+  ensures (=> (= result1 vnil) (not (= result0 vnil)))
+@*/
+/*@ iface types/replicationcontroller.FilterController.Refilter
+  requires [filter-nonnil] (not (= $0 vnil))
+@*/
+/*@ iface types/replicationcontroller.Controller.Done
+  ensures (not (= result vnil))
+@*/
+/*@ iface types/replicationcontroller.Controller.Close
+@*/
+/*@ iface types/replicationcontroller.HandlerBuilder.OnInitialize
+  ensures (= result $recv)
+@*/
+/*@ iface types/replicationcontroller.HandlerBuilder.OnCreate
+  ensures (= result $recv)
+@*/
+/*@ iface types/replicationcontroller.HandlerBuilder.OnUpdate
+  ensures (= result $recv)
+@*/
+/*@ iface types/replicationcontroller.HandlerBuilder.OnDelete
+  ensures (= result $recv)
+@*/
+/*@ iface types/replicationcontroller.HandlerBuilder.Create
+  ensures (not (= result vnil))
+@*/
+
+/*@ iface types/service.CacheController.Cache
+  ensures (not (= result vnil))
+@*/
+/*@ iface types/service.CacheReader.List
+@*/
+/*@ iface types/service.Publisher.CloneForFilter
+  ensures (=> (= result1 vnil) (not (= result0 vnil)))
+@*/
+/*@ iface types/service.FilterController.Refilter
+  requires [filter-nonnil] (not (= $0 vnil))
+@*/
+/*@ iface types/service.Controller.Done
+  ensures (not (= result vnil))
+@*/
+/*@ iface types/service.Controller.Close
+@*/
+/*@ iface types/service.HandlerBuilder.OnInitialize
+  ensures (= result $recv)
+@*/
+/*@ iface types/service.HandlerBuilder.OnCreate
+  ensures (= result $recv)
+@*/
+/*@ iface types/service.HandlerBuilder.OnUpdate
+  ensures (= result $recv)
+@*/
+/*@ iface types/service.HandlerBuilder.OnDelete
+  ensures (= result $recv)
+@*/
+/*@ iface types/service.HandlerBuilder.Create
+  ensures (not (= result vnil))
+@*/
+
+/*@ iface types/statefulset.CacheController.Cache
+  ensures (not (= result vnil))
+@*/
+/*@ iface types/statefulset.CacheReader.List
+@*/
+/*@ iface types/statefulset.Publisher.CloneForFilter
+  ensures (=> (= result1 vnil) (not (= result0 vnil)))
+@*/
+/*@ iface types/statefulset.FilterController.Refilter
+  requires [filter-nonnil] (not (= $0 vnil))
+@*/
+/*@ iface types/statefulset.Controller.Done
+  ensures (not (= result vnil))
+@*/
+/*@ iface types/statefulset.Controller.Close
+@*/
+/*@ iface types/statefulset.HandlerBuilder.OnInitialize
+  ensures (= result $recv)
+@*/
+/*@ iface types/statefulset.HandlerBuilder.OnCreate
+  ensures (= result $recv)
+@*/
+/*@ iface types/statefulset.HandlerBuilder.OnUpdate
+  ensures (= result $recv)
+@*/
+/*@ iface types/statefulset.HandlerBuilder.OnDelete
+  ensures (= result $recv)
+@*/
+/*@ iface types/statefulset.HandlerBuilder.Create
+  ensures (not (= result vnil))
+@*/
+
+/*@ func join.ServicePodsWith
+  props C09 C20 C11
+  theory joins
+  requires (and (not (= {srcController} vnil)) (not (= {dstController} vnil)) (not (= {filterFn} vnil)))
+  ghost initSet : Bool := false
+  ghost createSet : Bool := false
+  ghost updateSet : Bool := false
+  ghost deleteSet : Bool := false
+  ghost linked : Bool := false
+  at call(CloneForFilter) assert [destination-is-a-for-filter-clone-of-the-given-publisher] (= $recv {dstController})
+  at call(OnInitialize) assert [initialize-refilters] (= (closureOf $0) "join.ServicePodsWith$2")
+  at call(OnInitialize) set initSet := true
+  at call(OnCreate) assert [create-refilters-from-the-source-cache] (= (closureOf $0) "join.ServicePodsWith$1")
+  at call(OnCreate) set createSet := true
+  at call(OnUpdate) assert [update-refilters-from-the-source-cache] (= (closureOf $0) "join.ServicePodsWith$1")
+  at call(OnUpdate) set updateSet := true
+  at call(OnDelete) assert [delete-refilters-from-the-source-cache] (= (closureOf $0) "join.ServicePodsWith$1")
+  at call(OnDelete) set deleteSet := true
+  at call(Create) assert [all-four-callbacks-set] (and initSet createSet updateSet deleteSet)
+  at call(NewMonitor) assert [monitors-the-source-controller-with-that-handler] (= $0 {srcController})
+  at call(Close) assert [closes-only-the-clone-it-created] (= $recv {dst})
+  at go(ServicePodsWith$3) set linked := true
+  at return assert [success-returns-the-clone-with-its-monitor-tied-to-it] (=> (= result1 vnil) (and (= result0 {dst}) linked (not (= result0 vnil))))
+  at return assert [failure-returns-nothing] (=> (not (= result1 vnil)) (= result0 vnil))
+  ensures (=> (= result1 vnil) (not (= result0 vnil)))
+@*/
+/*@ func join.ServicePodsWith$1
+  props C09
+  theory joins
+  requires (and (not (= {srcController} vnil)) (not (= {dst} vnil)) (not (= {filterFn} vnil)) (not (= {log} vnil)))
+  ghost lastObjs : (Slice V) := {objs}
+  ghost listOK : Bool := false
+  ghost lastFilter : V := vnil
+  at call(Cache) assert [reads-the-source-cache] (= $recv {srcController})
+  at call(List).after set lastObjs := $result0
+  at call(List).after set listOK := (= $result1 vnil)
+  at call(dyncall) assert [selection-filter-of-the-current-source-content] (and (= $fn {filterFn}) (= $0 lastObjs) listOK)
+  at call(dyncall).after assume [the-selection-function-returns-a-filter] (not (= $result vnil))
+  at call(dyncall).after set lastFilter := $result
+  at call(Refilter) assert [refilters-its-own-clone-with-that-filter] (and (= $recv {dst}) (= $0 lastFilter) listOK)
+@*/
+/*@ func join.ServicePodsWith$2
+  props C09
+  theory joins
+  requires (and (not (= {dst} vnil)) (not (= {filterFn} vnil)))
+  ghost lastFilter : V := vnil
+  at call(dyncall) assert [selection-filter-of-the-initial-source-content] (and (= $fn {filterFn}) (= $0 {objs}))
+  at call(dyncall).after assume [the-selection-function-returns-a-filter] (not (= $result vnil))
+  at call(dyncall).after set lastFilter := $result
+  at call(Refilter) assert [refilters-its-own-clone-with-that-filter] (and (= $recv {dst}) (= $0 lastFilter))
+@*/
+/*@ func join.ServicePodsWith$3
+  props C09 C11 C12
+  theory joins
+  requires (and (not (= {dst} vnil)) (not (= {monitor} vnil)))
+  ghost doneSeen : Bool := false
+  at recv(Done) set doneSeen := true
+  at call(Done) assert [waits-for-its-own-clone] (= $recv {dst})
+  at call(Close) assert [closes-its-own-monitor-once-the-clone-is-done] (and doneSeen (= $recv {monitor}))
+@*/
+/*@ func join.ServicePods
+  props C09 C20
+  requires (and (not (= {src} vnil)) (not (= {dst} vnil)))
+  at call(ServicePodsWith) assert [the-selection-rule-of-this-join] (and (= $1 {src}) (= $2 {dst}) (= $3 |fn!types/service.PodsFilter|))
+  ensures (=> (= result1 vnil) (not (= result0 vnil)))
+@*/
+
+/*@ func join.RCPodsWith
+  props C09 C20 C11
+  theory joins
+  requires (and (not (= {srcController} vnil)) (not (= {dstController} vnil)) (not (= {filterFn} vnil)))
+  ghost initSet : Bool := false
+  ghost createSet : Bool := false
+  ghost updateSet : Bool := false
+  ghost deleteSet : Bool := false
+  ghost linked : Bool := false
+  at call(CloneForFilter) assert [destination-is-a-for-filter-clone-of-the-given-publisher] (= $recv {dstController})
+  at call(OnInitialize) assert [initialize-refilters] (= (closureOf $0) "join.RCPodsWith$2")
+  at call(OnInitialize) set initSet := true
+  at call(OnCreate) assert [create-refilters-from-the-source-cache] (= (closureOf $0) "join.RCPodsWith$1")
+  at call(OnCreate) set createSet := true
+  at call(OnUpdate) assert [update-refilters-from-the-source-cache] (= (closureOf $0) "join.RCPodsWith$1")
+  at call(OnUpdate) set updateSet := true
+  at call(OnDelete) assert [delete-refilters-from-the-source-cache] (= (closureOf $0) "join.RCPodsWith$1")
+  at call(OnDelete) set deleteSet := true
+  at call(Create) assert [all-four-callbacks-set] (and initSet createSet updateSet deleteSet)
+  at call(NewMonitor) assert [monitors-the-source-controller-with-that-handler] (= $0 {srcController})
+  at call(Close) assert [closes-only-the-clone-it-created] (= $recv {dst})
+  at go(RCPodsWith$3) set linked := true
+  at return assert [success-returns-the-clone-with-its-monitor-tied-to-it] (=> (= result1 vnil) (and (= result0 {dst}) linked (not (= result0 vnil))))
+  at return assert [failure-returns-nothing] (=> (not (= result1 vnil)) (= result0 vnil))
+  ensures (=> (= result1 vnil) (not (= result0 vnil)))
+@*/
+/*@ func join.RCPodsWith$1
+  props C09
+  theory joins
+  requires (and (not (= {srcController} vnil)) (not (= {dst} vnil)) (not (= {filterFn} vnil)) (not (= {log} vnil)))
+  ghost lastObjs : (Slice V) := {objs}
+  ghost listOK : Bool := false
+  ghost lastFilter : V := vnil
+  at call(Cache) assert [reads-the-source-cache] (= $recv {srcController})
+  at call(List).after set lastObjs := $result0
+  at call(List).after set listOK := (= $result1 vnil)
+  at call(dyncall) assert [selection-filter-of-the-current-source-content] (and (= $fn {filterFn}) (= $0 lastObjs) listOK)
+  at call(dyncall).after assume [the-selection-function-returns-a-filter] (not (= $result vnil))
+  at call(dyncall).after set lastFilter := $result
+  at call(Refilter) assert [refilters-its-own-clone-with-that-filter] (and (= $recv {dst}) (= $0 lastFilter) listOK)
+@*/
+/*@ func join.RCPodsWith$2
+  props C09
+  theory joins
+  requires (and (not (= {dst} vnil)) (not (= {filterFn} vnil)))
+  ghost lastFilter : V := vnil
+  at call(dyncall) assert [selection-filter-of-the-initial-source-content] (and (= $fn {filterFn}) (= $0 {objs}))
+  at call(dyncall).after assume [the-selection-function-returns-a-filter] (not (= $result vnil))
+  at call(dyncall).after set lastFilter := $result
+  at call(Refilter) assert [refilters-its-own-clone-with-that-filter] (and (= $recv {dst}) (= $0 lastFilter))
+@*/
+/*@ func join.RCPodsWith$3
+  props C09 C11 C12
+  theory joins
+  requires (and (not (= {dst} vnil)) (not (= {monitor} vnil)))
+  ghost doneSeen : Bool := false
+  at recv(Done) set doneSeen := true
+  at call(Done) assert [waits-for-its-own-clone] (= $recv {dst})
+  at call(Close) assert [closes-its-own-monitor-once-the-clone-is-done] (and doneSeen (= $recv {monitor}))
+@*/
+/*@ func join.RCPods
+  props C09 C20
+  requires (and (not (= {src} vnil)) (not (= {dst} vnil)))
+  at call(RCPodsWith) assert [the-selection-rule-of-this-join] (and (= $1 {src}) (= $2 {dst}) (= $3 |fn!types/replicationcontroller.PodsFilter|))
+  ensures (=> (= result1 vnil) (not (= result0 vnil)))
+@*/
+
+/*@ func join.RSPodsWith
+  props C09 C20 C11
+  theory joins
+  requires (and (not (= {srcController} vnil)) (not (= {dstController} vnil)) (not (= {filterFn} vnil)))
+  ghost initSet : Bool := false
+  ghost createSet : Bool := false
+  ghost updateSet : Bool := false
+  ghost deleteSet : Bool := false
+  ghost linked : Bool := false
+  at call(CloneForFilter) assert [destination-is-a-for-filter-clone-of-the-given-publisher] (= $recv {dstController})
+  at call(OnInitialize) assert [initialize-refilters] (= (closureOf $0) "join.RSPodsWith$2")
+  at call(OnInitialize) set initSet := true
+  at call(OnCreate) assert [create-refilters-from-the-source-cache] (= (closureOf $0) "join.RSPodsWith$1")
+  at call(OnCreate) set createSet := true
+  at call(OnUpdate) assert [update-refilters-from-the-source-cache] (= (closureOf $0) "join.RSPodsWith$1")
+  at call(OnUpdate) set updateSet := true
+  at call(OnDelete) assert [delete-refilters-from-the-source-cache] (= (closureOf $0) "join.RSPodsWith$1")
+  at call(OnDelete) set deleteSet := true
+  at call(Create) assert [all-four-callbacks-set] (and initSet createSet updateSet deleteSet)
+  at call(NewMonitor) assert [monitors-the-source-controller-with-that-handler] (= $0 {srcController})
+  at call(Close) assert [closes-only-the-clone-it-created] (= $recv {dst})
+  at go(RSPodsWith$3) set linked := true
+  at return assert [success-returns-the-clone-with-its-monitor-tied-to-it] (=> (= result1 vnil) (and (= result0 {dst}) linked (not (= result0 vnil))))
+  at return assert [failure-returns-nothing] (=> (not (= result1 vnil)) (= result0 vnil))
+  ensures (=> (= result1 vnil) (not (= result0 vnil)))
+@*/
+/*@ func join.RSPodsWith$1
+  props C09
+  theory joins
+  requires (and (not (= {srcController} vnil)) (not (= {dst} vnil)) (not (= {filterFn} vnil)) (not (= {log} vnil)))
+  ghost lastObjs : (Slice V) := {objs}
+  ghost listOK : Bool := false
+  ghost lastFilter : V := vnil
+  at call(Cache) assert [reads-the-source-cache] (= $recv {srcController})
+  at call(List).after set lastObjs := $result0
+  at call(List).after set listOK := (= $result1 vnil)
+  at call(dyncall) assert [selection-filter-of-the-current-source-content] (and (= $fn {filterFn}) (= $0 lastObjs) listOK)
+  at call(dyncall).after assume [the-selection-function-returns-a-filter] (not (= $result vnil))
+  at call(dyncall).after set lastFilter := $result
+  at call(Refilter) assert [refilters-its-own-clone-with-that-filter] (and (= $recv {dst}) (= $0 lastFilter) listOK)
+@*/
+/*@ func join.RSPodsWith$2
+  props C09
+  theory joins
+  requires (and (not (= {dst} vnil)) (not (= {filterFn} vnil)))
+  ghost lastFilter : V := vnil
+  at call(dyncall) assert [selection-filter-of-the-initial-source-content] (and (= $fn {filterFn}) (= $0 {objs}))
+  at call(dyncall).after assume [the-selection-function-returns-a-filter] (not (= $result vnil))
+  at call(dyncall).after set lastFilter := $result
+  at call(Refilter) assert [refilters-its-own-clone-with-that-filter] (and (= $recv {dst}) (= $0 lastFilter))
+@*/
+/*@ func join.RSPodsWith$3
+  props C09 C11 C12
+  theory joins
+  requires (and (not (= {dst} vnil)) (not (= {monitor} vnil)))
+  ghost doneSeen : Bool := false
+  at recv(Done) set doneSeen := true
+  at call(Done) assert [waits-for-its-own-clone] (= $recv {dst})
+  at call(Close) assert [closes-its-own-monitor-once-the-clone-is-done] (and doneSeen (= $recv {monitor}))
+@*/
+/*@ func join.RSPods
+  props C09 C20
+  requires (and (not (= {src} vnil)) (not (= {dst} vnil)))
+  at call(RSPodsWith) assert [the-selection-rule-of-this-join] (and (= $1 {src}) (= $2 {dst}) (= $3 |fn!types/replicaset.PodsFilter|))
+  ensures (=> (= result1 vnil) (not (= result0 vnil)))
+@*/
+
+/*@ func join.DeploymentPodsWith
+  props C09 C20 C11
+  theory joins
+  requires (and (not (= {srcController} vnil)) (not (= {dstController} vnil)) (not (= {filterFn} vnil)))
+  ghost initSet : Bool := false
+  ghost createSet : Bool := false
+  ghost updateSet : Bool := false
+  ghost deleteSet : Bool := false
+  ghost linked : Bool := false
+  at call(CloneForFilter) assert [destination-is-a-for-filter-clone-of-the-given-publisher] (= $recv {dstController})
+  at call(OnInitialize) assert [initialize-refilters] (= (closureOf $0) "join.DeploymentPodsWith$2")
+  at call(OnInitialize) set initSet := true
+  at call(OnCreate) assert [create-refilters-from-the-source-cache] (= (closureOf $0) "join.DeploymentPodsWith$1")
+  at call(OnCreate) set createSet := true
+  at call(OnUpdate) assert [update-refilters-from-the-source-cache] (= (closureOf $0) "join.DeploymentPodsWith$1")
+  at call(OnUpdate) set updateSet := true
+  at call(OnDelete) assert [delete-refilters-from-the-source-cache] (= (closureOf $0) "join.DeploymentPodsWith$1")
+  at call(OnDelete) set deleteSet := true
+  at call(Create) assert [all-four-callbacks-set] (and initSet createSet updateSet deleteSet)
+  at call(NewMonitor) assert [monitors-the-source-controller-with-that-handler] (= $0 {srcController})
+  at call(Close) assert [closes-only-the-clone-it-created] (= $recv {dst})
+  at go(DeploymentPodsWith$3) set linked := true
+  at return assert [success-returns-the-clone-with-its-monitor-tied-to-it] (=> (= result1 vnil) (and (= result0 {dst}) linked (not (= result0 vnil))))
+  at return assert [failure-returns-nothing] (=> (not (= result1 vnil)) (= result0 vnil))
+  ensures (=> (= result1 vnil) (not (= result0 vnil)))
+@*/
+/*@ func join.DeploymentPodsWith$1
+  props C09
+  theory joins
+  requires (and (not (= {srcController} vnil)) (not (= {dst} vnil)) (not (= {filterFn} vnil)) (not (= {log} vnil)))
+  ghost lastObjs : (Slice V) := {objs}
+  ghost listOK : Bool := false
+  ghost lastFilter : V := vnil
+  at call(Cache) assert [reads-the-source-cache] (= $recv {srcController})
+  at call(List).after set lastObjs := $result0
+  at call(List).after set listOK := (= $result1 vnil)
+  at call(dyncall) assert [selection-filter-of-the-current-source-content] (and (= $fn {filterFn}) (= $0 lastObjs) listOK)
+  at call(dyncall).after assume [the-selection-function-returns-a-filter] (not (= $result vnil))
+  at call(dyncall).after set lastFilter := $result
+  at call(Refilter) assert [refilters-its-own-clone-with-that-filter] (and (= $recv {dst}) (= $0 lastFilter) listOK)
+@*/
+/*@ func join.DeploymentPodsWith$2
+  props C09
+  theory joins
+  requires (and (not (= {dst} vnil)) (not (= {filterFn} vnil)))
+  ghost lastFilter : V := vnil
+  at call(dyncall) assert [selection-filter-of-the-initial-source-content] (and (= $fn {filterFn}) (= $0 {objs}))
+  at call(dyncall).after assume [the-selection-function-returns-a-filter] (not (= $result vnil))
+  at call(dyncall).after set lastFilter := $result
+  at call(Refilter) assert [refilters-its-own-clone-with-that-filter] (and (= $recv {dst}) (= $0 lastFilter))
+@*/
+/*@ func join.DeploymentPodsWith$3
+  props C09 C11 C12
+  theory joins
+  requires (and (not (= {dst} vnil)) (not (= {monitor} vnil)))
+  ghost doneSeen : Bool := false
+  at recv(Done) set doneSeen := true
+  at call(Done) assert [waits-for-its-own-clone] (= $recv {dst})
+  at call(Close) assert [closes-its-own-monitor-once-the-clone-is-done] (and doneSeen (= $recv {monitor}))
+@*/
+/*@ func join.DeploymentPods
+  props C09 C20
+  requires (and (not (= {src} vnil)) (not (= {dst} vnil)))
+  at call(DeploymentPodsWith) assert [the-selection-rule-of-this-join] (and (= $1 {src}) (= $2 {dst}) (= $3 |fn!types/deployment.PodsFilter|))
+  ensures (=> (= result1 vnil) (not (= result0 vnil)))
+@*/
+
+/*@ func join.DaemonSetPodsWith
+  props C09 C20 C11
+  theory joins
+  requires (and (not (= {srcController} vnil)) (not (= {dstController} vnil)) (not (= {filterFn} vnil)))
+  ghost initSet : Bool := false
+  ghost createSet : Bool := false
+  ghost updateSet : Bool := false
+  ghost deleteSet : Bool := false
+  ghost linked : Bool := false
+  at call(CloneForFilter) assert [destination-is-a-for-filter-clone-of-the-given-publisher] (= $recv {dstController})
+  at call(OnInitialize) assert [initialize-refilters] (= (closureOf $0) "join.DaemonSetPodsWith$2")
+  at call(OnInitialize) set initSet := true
+  at call(OnCreate) assert [create-refilters-from-the-source-cache] (= (closureOf $0) "join.DaemonSetPodsWith$1")
+  at call(OnCreate) set createSet := true
+  at call(OnUpdate) assert [update-refilters-from-the-source-cache] (= (closureOf $0) "join.DaemonSetPodsWith$1")
+  at call(OnUpdate) set updateSet := true
+  at call(OnDelete) assert [delete-refilters-from-the-source-cache] (= (closureOf $0) "join.DaemonSetPodsWith$1")
+  at call(OnDelete) set deleteSet := true
+  at call(Create) assert [all-four-callbacks-set] (and initSet createSet updateSet deleteSet)
+  at call(NewMonitor) assert [monitors-the-source-controller-with-that-handler] (= $0 {srcController})
+  at call(Close) assert [closes-only-the-clone-it-created] (= $recv {dst})
+  at go(DaemonSetPodsWith$3) set linked := true
+  at return assert [success-returns-the-clone-with-its-monitor-tied-to-it] (=> (= result1 vnil) (and (= result0 {dst}) linked (not (= result0 vnil))))
+  at return assert [failure-returns-nothing] (=> (not (= result1 vnil)) (= result0 vnil))
+  ensures (=> (= result1 vnil) (not (= result0 vnil)))
+@*/
+/*@ func join.DaemonSetPodsWith$1
+  props C09
+  theory joins
+  requires (and (not (= {srcController} vnil)) (not (= {dst} vnil)) (not (= {filterFn} vnil)) (not (= {log} vnil)))
+  ghost lastObjs : (Slice V) := {objs}
+  ghost listOK : Bool := false
+  ghost lastFilter : V := vnil
+  at call(Cache) assert [reads-the-source-cache] (= $recv {srcController})
+  at call(List).after set lastObjs := $result0
+  at call(List).after set listOK := (= $result1 vnil)
+  at call(dyncall) assert [selection-filter-of-the-current-source-content] (and (= $fn {filterFn}) (= $0 lastObjs) listOK)
+  at call(dyncall).after assume [the-selection-function-returns-a-filter] (not (= $result vnil))
+  at call(dyncall).after set lastFilter := $result
+  at call(Refilter) assert [refilters-its-own-clone-with-that-filter] (and (= $recv {dst}) (= $0 lastFilter) listOK)
+@*/
+/*@ func join.DaemonSetPodsWith$2
+  props C09
+  theory joins
+  requires (and (not (= {dst} vnil)) (not (= {filterFn} vnil)))
+  ghost lastFilter : V := vnil
+  at call(dyncall) assert [selection-filter-of-the-initial-source-content] (and (= $fn {filterFn}) (= $0 {objs}))
+  at call(dyncall).after assume [the-selection-function-returns-a-filter] (not (= $result vnil))
+  at call(dyncall).after set lastFilter := $result
+  at call(Refilter) assert [refilters-its-own-clone-with-that-filter] (and (= $recv {dst}) (= $0 lastFilter))
+@*/
+/*@ func join.DaemonSetPodsWith$3
+  props C09 C11 C12
+  theory joins
+  requires (and (not (= {dst} vnil)) (not (= {monitor} vnil)))
+  ghost doneSeen : Bool := false
+  at recv(Done) set doneSeen := true
+  at call(Done) assert [waits-for-its-own-clone] (= $recv {dst})
+  at call(Close) assert [closes-its-own-monitor-once-the-clone-is-done] (and doneSeen (= $recv {monitor}))
+@*/
+/*@ func join.DaemonSetPods
+  props C09 C20
+  requires (and (not (= {src} vnil)) (not (= {dst} vnil)))
+  at call(DaemonSetPodsWith) assert [the-selection-rule-of-this-join] (and (= $1 {src}) (= $2 {dst}) (= $3 |fn!types/daemonset.PodsFilter|))
+  ensures (=> (= result1 vnil) (not (= result0 vnil)))
+@*/
+
+/*@ func join.StatefulSetPodsWith
+  props C09 C20 C11
+  theory joins
+  requires (and (not (= {srcController} vnil)) (not (= {dstController} vnil)) (not (= {filterFn} vnil)))
+  ghost initSet : Bool := false
+  ghost createSet : Bool := false
+  ghost updateSet : Bool := false
+  ghost deleteSet : Bool := false
+  ghost linked : Bool := false
+  at call(CloneForFilter) assert [destination-is-a-for-filter-clone-of-the-given-publisher] (= $recv {dstController})
+  at call(OnInitialize) assert [initialize-refilters] (= (closureOf $0) "join.StatefulSetPodsWith$2")
+  at call(OnInitialize) set initSet := true
+  at call(OnCreate) assert [create-refilters-from-the-source-cache] (= (closureOf $0) "join.StatefulSetPodsWith$1")
+  at call(OnCreate) set createSet := true
+  at call(OnUpdate) assert [update-refilters-from-the-source-cache] (= (closureOf $0) "join.StatefulSetPodsWith$1")
+  at call(OnUpdate) set updateSet := true
+  at call(OnDelete) assert [delete-refilters-from-the-source-cache] (= (closureOf $0) "join.StatefulSetPodsWith$1")
+  at call(OnDelete) set deleteSet := true
+  at call(Create) assert [all-four-callbacks-set] (and initSet createSet updateSet deleteSet)
+  at call(NewMonitor) assert [monitors-the-source-controller-with-that-handler] (= $0 {srcController})
+  at call(Close) assert [closes-only-the-clone-it-created] (= $recv {dst})
+  at go(StatefulSetPodsWith$3) set linked := true
+  at return assert [success-returns-the-clone-with-its-monitor-tied-to-it] (=> (= result1 vnil) (and (= result0 {dst}) linked (not (= result0 vnil))))
+  at return assert [failure-returns-nothing] (=> (not (= result1 vnil)) (= result0 vnil))
+  ensures (=> (= result1 vnil) (not (= result0 vnil)))
+@*/
+/*@ func join.StatefulSetPodsWith$1
+  props C09
+  theory joins
+  requires (and (not (= {srcController} vnil)) (not (= {dst} vnil)) (not (= {filterFn} vnil)) (not (= {log} vnil)))
+  ghost lastObjs : (Slice V) := {objs}
+  ghost listOK : Bool := false
+  ghost lastFilter : V := vnil
+  at call(Cache) assert [reads-the-source-cache] (= $recv {srcController})
+  at call(List).after set lastObjs := $result0
+  at call(List).after set listOK := (= $result1 vnil)
+  at call(dyncall) assert [selection-filter-of-the-current-source-content] (and (= $fn {filterFn}) (= $0 lastObjs) listOK)
+  at call(dyncall).after assume [the-selection-function-returns-a-filter] (not (= $result vnil))
+  at call(dyncall).after set lastFilter := $result
+  at call(Refilter) assert [refilters-its-own-clone-with-that-filter] (and (= $recv {dst}) (= $0 lastFilter) listOK)
+@*/
+/*@ func join.StatefulSetPodsWith$2
+  props C09
+  theory joins
+  requires (and (not (= {dst} vnil)) (not (= {filterFn} vnil)))
+  ghost lastFilter : V := vnil
+  at call(dyncall) assert [selection-filter-of-the-initial-source-content] (and (= $fn {filterFn}) (= $0 {objs}))
+  at call(dyncall).after assume [the-selection-function-returns-a-filter] (not (= $result vnil))
+  at call(dyncall).after set lastFilter := $result
+  at call(Refilter) assert [refilters-its-own-clone-with-that-filter] (and (= $recv {dst}) (= $0 lastFilter))
+@*/
+/*@ func join.StatefulSetPodsWith$3
+  props C09 C11 C12
+  theory joins
+  requires (and (not (= {dst} vnil)) (not (= {monitor} vnil)))
+  ghost doneSeen : Bool := false
+  at recv(Done) set doneSeen := true
+  at call(Done) assert [waits-for-its-own-clone] (= $recv {dst})
+  at call(Close) assert [closes-its-own-monitor-once-the-clone-is-done] (and doneSeen (= $recv {monitor}))
+@*/
+/*@ func join.StatefulSetPods
+  props C09 C20
+  requires (and (not (= {src} vnil)) (not (= {dst} vnil)))
+  at call(StatefulSetPodsWith) assert [the-selection-rule-of-this-join] (and (= $1 {src}) (= $2 {dst}) (= $3 |fn!types/statefulset.PodsFilter|))
+  ensures (=> (= result1 vnil) (not (= result0 vnil)))
+@*/
+
+/*@ func join.JobPodsWith
+  props C09 C20 C11
+  theory joins
+  requires (and (not (= {srcController} vnil)) (not (= {dstController} vnil)) (not (= {filterFn} vnil)))
+  ghost initSet : Bool := false
+  ghost createSet : Bool := false
+  ghost updateSet : Bool := false
+  ghost deleteSet : Bool := false
+  ghost linked : Bool := false
+  at call(CloneForFilter) assert [destination-is-a-for-filter-clone-of-the-given-publisher] (= $recv {dstController})
+  at call(OnInitialize) assert [initialize-refilters] (= (closureOf $0) "join.JobPodsWith$2")
+  at call(OnInitialize) set initSet := true
+  at call(OnCreate) assert [create-refilters-from-the-source-cache] (= (closureOf $0) "join.JobPodsWith$1")
+  at call(OnCreate) set createSet := true
+  at call(OnUpdate) assert [update-refilters-from-the-source-cache] (= (closureOf $0) "join.JobPodsWith$1")
+  at call(OnUpdate) set updateSet := true
+  at call(OnDelete) assert [delete-refilters-from-the-source-cache] (= (closureOf $0) "join.JobPodsWith$1")
+  at call(OnDelete) set deleteSet := true
+  at call(Create) assert [all-four-callbacks-set] (and initSet createSet updateSet deleteSet)
+  at call(NewMonitor) assert [monitors-the-source-controller-with-that-handler] (= $0 {srcController})
+  at call(Close) assert [closes-only-the-clone-it-created] (= $recv {dst})
+  at go(JobPodsWith$3) set linked := true
+  at return assert [success-returns-the-clone-with-its-monitor-tied-to-it] (=> (= result1 vnil) (and (= result0 {dst}) linked (not (= result0 vnil))))
+  at return assert [failure-returns-nothing] (=> (not (= result1 vnil)) (= result0 vnil))
+  ensures (=> (= result1 vnil) (not (= result0 vnil)))
+@*/
+/*@ func join.JobPodsWith$1
+  props C09
+  theory joins
+  requires (and (not (= {srcController} vnil)) (not (= {dst} vnil)) (not (= {filterFn} vnil)) (not (= {log} vnil)))
+  ghost lastObjs : (Slice V) := {objs}
+  ghost listOK : Bool := false
+  ghost lastFilter : V := vnil
+  at call(Cache) assert [reads-the-source-cache] (= $recv {srcController})
+  at call(List).after set lastObjs := $result0
+  at call(List).after set listOK := (= $result1 vnil)
+  at call(dyncall) assert [selection-filter-of-the-current-source-content] (and (= $fn {filterFn}) (= $0 lastObjs) listOK)
+  at call(dyncall).after assume [the-selection-function-returns-a-filter] (not (= $result vnil))
+  at call(dyncall).after set lastFilter := $result
+  at call(Refilter) assert [refilters-its-own-clone-with-that-filter] (and (= $recv {dst}) (= $0 lastFilter) listOK)
+@*/
+/*@ func join.JobPodsWith$2
+  props C09
+  theory joins
+  requires (and (not (= {dst} vnil)) (not (= {filterFn} vnil)))
+  ghost lastFilter : V := vnil
+  at call(dyncall) assert [selection-filter-of-the-initial-source-content] (and (= $fn {filterFn}) (= $0 {objs}))
+  at call(dyncall).after assume [the-selection-function-returns-a-filter] (not (= $result vnil))
+  at call(dyncall).after set lastFilter := $result
+  at call(Refilter) assert [refilters-its-own-clone-with-that-filter] (and (= $recv {dst}) (= $0 lastFilter))
+@*/
+/*@ func join.JobPodsWith$3
+  props C09 C11 C12
+  theory joins
+  requires (and (not (= {dst} vnil)) (not (= {monitor} vnil)))
+  ghost doneSeen : Bool := false
+  at recv(Done) set doneSeen := true
+  at call(Done) assert [waits-for-its-own-clone] (= $recv {dst})
+  at call(Close) assert [closes-its-own-monitor-once-the-clone-is-done] (and doneSeen (= $recv {monitor}))
+@*/
+/*@ func join.JobPods
+  props C09 C20
+  requires (and (not (= {src} vnil)) (not (= {dst} vnil)))
+  at call(JobPodsWith) assert [the-selection-rule-of-this-join] (and (= $1 {src}) (= $2 {dst}) (= $3 |fn!types/job.PodsFilter|))
+  ensures (=> (= result1 vnil) (not (= result0 vnil)))
+@*/
+
+/*@ func join.IngressServicesWith
+  props C09 C20 C11
+  theory joins
+  requires (and (not (= {srcController} vnil)) (not (= {dstController} vnil)) (not (= {filterFn} vnil)))
+  ghost initSet : Bool := false
+  ghost createSet : Bool := false
+  ghost updateSet : Bool := false
+  ghost deleteSet : Bool := false
+  ghost linked : Bool := false
+  at call(CloneForFilter) assert [destination-is-a-for-filter-clone-of-the-given-publisher] (= $recv {dstController})
+  at call(OnInitialize) assert [initialize-refilters] (= (closureOf $0) "join.IngressServicesWith$2")
+  at call(OnInitialize) set initSet := true
+  at call(OnCreate) assert [create-refilters-from-the-source-cache] (= (closureOf $0) "join.IngressServicesWith$1")
+  at call(OnCreate) set createSet := true
+  at call(OnUpdate) assert [update-refilters-from-the-source-cache] (= (closureOf $0) "join.IngressServicesWith$1")
+  at call(OnUpdate) set updateSet := true
+  at call(OnDelete) assert [delete-refilters-from-the-source-cache] (= (closureOf $0) "join.IngressServicesWith$1")
+  at call(OnDelete) set deleteSet := true
+  at call(Create) assert [all-four-callbacks-set] (and initSet createSet updateSet deleteSet)
+  at call(NewMonitor) assert [monitors-the-source-controller-with-that-handler] (= $0 {srcController})
+  at call(Close) assert [closes-only-the-clone-it-created] (= $recv {dst})
+  at go(IngressServicesWith$3) set linked := true
+  at return assert [success-returns-the-clone-with-its-monitor-tied-to-it] (=> (= result1 vnil) (and (= result0 {dst}) linked (not (= result0 vnil))))
+  at return assert [failure-returns-nothing] (=> (not (= result1 vnil)) (= result0 vnil))
+  ensures (=> (= result1 vnil) (not (= result0 vnil)))
+@*/
+/*@ func join.IngressServicesWith$1
+  props C09
+  theory joins
+  requires (and (not (= {srcController} vnil)) (not (= {dst} vnil)) (not (= {filterFn} vnil)) (not (= {log} vnil)))
+  ghost lastObjs : (Slice V) := {objs}
+  ghost listOK : Bool := false
+  ghost lastFilter : V := vnil
+  at call(Cache) assert [reads-the-source-cache] (= $recv {srcController})
+  at call(List).after set lastObjs := $result0
+  at call(List).after set listOK := (= $result1 vnil)
+  at call(dyncall) assert [selection-filter-of-the-current-source-content] (and (= $fn {filterFn}) (= $0 lastObjs) listOK)
+  at call(dyncall).after assume [the-selection-function-returns-a-filter] (not (= $result vnil))
+  at call(dyncall).after set lastFilter := $result
+  at call(Refilter) assert [refilters-its-own-clone-with-that-filter] (and (= $recv {dst}) (= $0 lastFilter) listOK)
+@*/
+/*@ func join.IngressServicesWith$2
+  props C09
+  theory joins
+  requires (and (not (= {dst} vnil)) (not (= {filterFn} vnil)))
+  ghost lastFilter : V := vnil
+  at call(dyncall) assert [selection-filter-of-the-initial-source-content] (and (= $fn {filterFn}) (= $0 {objs}))
+  at call(dyncall).after assume [the-selection-function-returns-a-filter] (not (= $result vnil))
+  at call(dyncall).after set lastFilter := $result
+  at call(Refilter) assert [refilters-its-own-clone-with-that-filter] (and (= $recv {dst}) (= $0 lastFilter))
+@*/
+/*@ func join.IngressServicesWith$3
+  props C09 C11 C12
+  theory joins
+  requires (and (not (= {dst} vnil)) (not (= {monitor} vnil)))
+  ghost doneSeen : Bool := false
+  at recv(Done) set doneSeen := true
+  at call(Done) assert [waits-for-its-own-clone] (= $recv {dst})
+  at call(Close) assert [closes-its-own-monitor-once-the-clone-is-done] (and doneSeen (= $recv {monitor}))
+@*/
+/*@ func join.IngressServices
+  props C09 C20
+  requires (and (not (= {src} vnil)) (not (= {dst} vnil)))
+  at call(IngressServicesWith) assert [the-selection-rule-of-this-join] (and (= $1 {src}) (= $2 {dst}) (= $3 |fn!types/ingress.ServicesFilter|))
+  ensures (=> (= result1 vnil) (not (= result0 vnil)))
+@*/
+
+/*@ iface kcache.Monitor.Close
+@*/
+
+/*@ func join.IngressPods
+  props C09 C11 C12
+  theory joins
+  requires (and (not (= {srcbase} vnil)) (not (= {svcbase} vnil)) (not (= {dstbase} vnil)))
+  ghost linked : Bool := false
+  at call(IngressServices) assert [services-selected-by-the-ingresses] (and (= $1 {srcbase}) (= $2 {svcbase}))
+  at call(ServicePods) assert [pods-selected-by-those-services] (and (= $1 {svcs}) (= $2 {dstbase}))
+  at call(Close) assert [closes-only-the-intermediate-join-it-created] (= $recv {svcs})
+  at go(IngressPods$1) set linked := true
+  at return assert [the-intermediate-join-is-tied-to-the-result] (=> (= result1 vnil) (and (= result0 {pods}) linked))
+@*/
+/*@ func join.IngressPods$1
+  props C09 C11 C12
+  theory joins
+  requires (and (not (= {pods} vnil)) (not (= {svcs} vnil)))
+  ghost doneSeen : Bool := false
+  at recv(Done) set doneSeen := true
+  at call(Done) assert [waits-for-the-result] (= $recv {pods})
+  at call(Close) assert [closes-the-intermediate-join-once-the-result-is-done] (and doneSeen (= $recv {svcs}))
+@*/
